@@ -130,6 +130,14 @@ def cases(tier, seed, args):
             out.append(dict(t='stack_dist', dist=['bingham', 'bingham', 'watson', 'cacg'][i % 4], fn=['fit', 'log_pdf'][(i // 4) % 2],
                             L=[int(rng.integers(2, 4))], D=int(rng.integers(2, 4)), N=int(rng.integers(8, 16)),
                             seed=int(rng.integers(1 << 30)), saliency=bool(i % 3 == 0), degenerate_slice=False, near_dup=True))
+        # long iteration budgets on slices that converge at different speeds; slices on very different scales; a silent frame
+        for i in range(8 if q else 48):
+            kind = ['gmm', 'cwmm', 'gmm', 'vmfmm', 'cacgmm', 'gmm', 'cacgmm', 'cwmm'][i % 8]
+            out.append(dict(t='stack_mm', kind=kind, L=[2 + i % 2], K=2 + (i // 4) % 2, D=2 + i % 2, N=int(rng.integers(30, 50)),
+                            iterations=[60, 100, 40, 80][i % 4] if i % 8 < 4 else int(rng.integers(2, 5)), seed=2 * int(rng.integers(1 << 29)),
+                            covariance_type=['full', 'diagonal', 'spherical'][i % 3], singleton_init=False, degenerate_slice=False,
+                            covariance_norm='eigenvalue', rank_deficient=False, saliency=False, mixed_speed=bool(i % 8 < 4),
+                            zero_obs=bool(i % 8 in (4, 6)), outlier_slice=bool(i % 8 in (5, 7))))
         # user saliency per observation; the number of slices equals the number of classes (shape coincidences)
         for i in range(10 if q else 60):
             kind = ['gmm', 'vmfmm', 'cwmm', 'cacgmm', 'cbmm'][i % 5]
@@ -429,6 +437,19 @@ def _stack_mm(case):
         data['y'][idx][..., -1] = 0
         for j, ix in enumerate(np.ndindex(*L)):
             data['y'][ix] = data['y'][ix] * (1.0 + 0.5 * j)
+    if case.get('mixed_speed'):
+        # slices that converge at different speeds: the first well separated, the others overlapping clusters
+        real = kind in ('gmm', 'vmfmm')
+        for j, ix in enumerate(np.ndindex(*L)):
+            if j == 0:
+                continue
+            proto = rng.normal(size=(K, D)) + (0 if real else 1j * rng.normal(size=(K, D)))
+            labm = rng.integers(0, K, size=N)
+            data['y'][ix] = proto[labm] + [0.6, 0.9][j % 2] * (rng.normal(size=(N, D)) + (0 if real else 1j * rng.normal(size=(N, D))))
+    if case.get('zero_obs') and kind == 'cacgmm':
+        data['y'][tuple(0 for _ in L)][1] = 0            # one all-zero observation in one slice
+    if case.get('outlier_slice'):
+        data['y'][tuple(-1 for _ in L)] *= 60.0          # one slice on a very different scale
     sal = None
     if case.get('saliency') and kind not in ml.INTEGRATION:
         sal = rng.uniform(0.2, 2.0, size=(*L, N))          # one weight per observation, different in every slice
